@@ -77,7 +77,7 @@ def main():
                 pq = mp.bernfrac(k)
                 eid = len(events)
                 events.append(enc.event(eid, "oblig", [], p, "n", enc.sym("none"), pb=0,
-                                        x={"j": ex.allj(ex.eq(ex.div(int(pq[0]), int(pq[1])), ex.seqn("bern", k)), ex.lt(0, int(pq[1])))}))
+                                        x={"defs": [], "j": ex.allj(ex.eq(ex.div(int(pq[0]), int(pq[1])), ex.seqn("bern", k)), ex.lt(0, int(pq[1])))}))
                 meta[eid] = {"f": "bernfrac", "args": [k], "p": p, "got": [int(pq[0]), int(pq[1])]}
                 # reducedness: gcd(p, q) = 1 is re-derived from von Staudt-Clausen: q = prod of primes l with (l-1) | k
                 if k >= 2 and k % 2 == 0:
@@ -101,13 +101,13 @@ def main():
                 got = mp.isprime(k)
                 want = ex.sub(ex.seqn("primepi", k), ex.seqn("primepi", max(k - 1, 0)))
                 eid = len(events)
-                events.append(enc.event(eid, "oblig", [], p, "n", enc.sym("none"), pb=0, x={"j": ex.eq(1 if got else 0, want)}))
+                events.append(enc.event(eid, "oblig", [], p, "n", enc.sym("none"), pb=0, x={"defs": [], "j": ex.eq(1 if got else 0, want)}))
                 meta[eid] = {"f": "isprime", "args": [k], "p": p, "got": bool(got)}
             elif c == 13:
                 k = rng.randint(2, 2500)
                 ps = mp.list_primes(k)
                 eid = len(events)
-                events.append(enc.event(eid, "oblig", [], p, "n", enc.sym("none"), pb=0, x={"j": ex.eq(len(ps), ex.seqn("primepi", k))}))
+                events.append(enc.event(eid, "oblig", [], p, "n", enc.sym("none"), pb=0, x={"defs": [], "j": ex.eq(len(ps), ex.seqn("primepi", k))}))
                 meta[eid] = {"f": "list_primes", "args": [k], "p": p, "got": len(ps)}
                 if ps != sorted(set(ps)) or any(not mp.isprime(q) for q in ps[-5:]) or (ps and ps[-1] > k):
                     chk.violation("list_primes/structure", "list_primes(%d) is not a sorted duplicate-free list of primes <= n" % k, {"k": k})
@@ -121,7 +121,7 @@ def main():
                 e = ex.add(*[ex.mul(ex.seqnk("binom", k, j), ex.seqn("bern", j), ex.powi(ex.Qf(xq), k - j)) for j in range(k + 1)]) if k else ex.Z(1)
                 # B_1 convention: bernpoly uses B_1 = -1/2, as BernSeq does
                 eid = len(events)
-                events.append(enc.event(eid, "oblig", [], p, "n", enc.sym("none"), pb=0, x={"j": ex.relabs_close(got, e, 8, p)}))
+                events.append(enc.event(eid, "oblig", [], p, "n", enc.sym("none"), pb=0, x={"defs": [], "j": ex.relabs_close(got, e, 8, p)}))
                 meta[eid] = {"f": "bernpoly", "args": [k, str(xq)], "p": p}
             else:
                 k = rng.choice([1, 2, 3, 4, 5, 6, 7, 8, 9, 10, 12, 15, 30])
